@@ -72,6 +72,15 @@ FAMILIES = {
         "variants": [{"vh_cfg": {"L": 6}, "sim_subst": {}}],
         "tiers": {"quick": {"rand": 6, "rlen": 100000, "chunks": 6}, "thorough": {"rand": 6, "rlen": 100000, "chunks": 6, "vh_cfg": {"L": 8}}},
     },
+    "notif": {
+        "fix_all": ["blockentry", "overwrite"], "trace_fix": [],
+        "mc": {"module": "MCNotif", "cfg": {"quick": "Notif-mc-quick.cfg", "thorough": ["Notif-mc-quick.cfg"]}, "timeout": {"quick": 300, "thorough": 1800}},
+        "sim": {"module": "SimNotif", "cfg": "Notif-sim.cfg",
+                "tiers": {"quick": {"num": 100, "depth": 30, "workers": 4}, "thorough": {"num": 3000, "depth": 40, "workers": 8, "timeout": 2400}}},
+        "trace_module": "NotifTrace", "trace_cfg": "Notif-trace.cfg",
+        "vh_cfg": {},
+        "tiers": {"quick": {"rand": 300, "rlen": 40, "chunks": 8}, "thorough": {"rand": 6000, "rlen": 60, "chunks": 14}},
+    },
 }
 
 SP_ASSUME = COMMON_ASSUME + [
@@ -205,5 +214,15 @@ PROPS = {
         "assumptions": ["real types.MerklePath / types.AddToMerkle and the real PostFile handler are evaluated; the symbolic hash of the TLA+ model is injective by construction",
                         "paths beyond the length bound and other byte strings are not covered",
                         "reading: the parent/child relation is required for parents that do not end in a separator and non-empty child segments"],
+    },
+    "C18": {
+        "family": "notif",
+        "formulas": ["C18_Step", "C18_BlockSilent", "C18_NoPhantom", "C18_NoLoss", "C18_KF_BlockEntry", "C18_KF_Overwrite"], "nt": "C18",
+        "bug_variants": [("blockentry", ["C18_KF_BlockEntry"], "Notif-mc-quick.cfg"), ("overwrite", ["C18_KF_Overwrite"], "Notif-mc-quick.cfg")],
+        "rule": "non-trivial = a create, delete or block-senders step; distinct = distinct (pre-state, message, post-state) triples",
+        "assumptions": COMMON_ASSUME + ["the inbox is observed through the AllNotificationsByAddress query method (cross-checked against the keeper getter)",
+                                         "name targets resolve through real RNS records installed with the keeper; block time advances in whole seconds",
+                                         "two known findings (block entry listed in inbox; same-key create overwrites) are reported as KNOWN-FINDING, any other "
+                                         "phantom or lost inbox entry is a violation"],
     },
 }
